@@ -57,6 +57,16 @@ CHECKS = {
         note="Trusted: z3, shadows; tomlkit's text<->dict parsing is stubbed by prepared nested dicts (third-party parser, outside the claim) and cross-checked on 4 real documents with real tomlkit and real files. Bounded by nesting shape ([2,1] quick; depth 3 thorough) and <=3 lines x <=4 chars.",
         ref="§7 C20",
     ),
+    "C02": dict(
+        text="Inductive step over an arbitrary valid store state: the real Bucket API over MemoryStorage and SqliteStorage (its SQL text parsed and executed by a symbolic model of sqlite3) runs one operation with symbolic arguments from a pre-state of symbolic rows (ids, instants, durations, tags, AUTOINCREMENT mark); z3 decides on every path that the post-state tables equal the reference list model as multisets, that replace_last rewrites exactly the row a limit-1 read returned, delete removes exactly the addressed row, new ids are fresh, reads agree, and the other bucket is untouched.",
+        note="Trusted: z3; the SQL model (0 divergences from the real sqlite3 on 5.6k statements of the repo's own tests, tools/dualrun.py; every path's model re-run natively on a real database file); float microsecond arithmetic exact here (IEEE fidelity is C01). Bounded: <=2 (quick) / <=3 (thorough) live events + 1 foreign, one operation. Peewee backend: see level_note of C01.",
+        ref="§5, §7 C02",
+    ),
+    "C04": dict(
+        text="Two buckets in an arbitrary valid state; one operation on A (insert, upsert, replace, replace_last, delete, update/delete bucket) with an UNCONSTRAINED event id (may belong to B) and instants; z3 decides on every path that B's table rows, API listing (order included) and metadata are identical afterwards, whether the call returned or raised.",
+        note="As C02. Bounded: 1+1 events (quick), up to 2+2 (thorough); memory and sqlite backends.",
+        ref="§7 C04",
+    ),
 }
 
 NOT_YET = "check not built yet (work in progress; see DESIGN.md §7 for the plan)"
